@@ -39,9 +39,49 @@ def main(n, seed):
                 state["unclosed"] = unclosed(state["remote"], state["trees"])   # closedness after EVERY upload
             return r
 
+    def multi_fs_source(case):
+        """a staged directory whose file objects live on more than one filesystem (reference store: some on disk, some in memory):
+        _add() batches per source filesystem, every batch has to be uploaded (or reported)"""
+        from dvc_objects.fs.memory import MemoryFileSystem
+        from dvc_data.hashfile.db.reference import ReferenceHashFileDB
+        import hashlib
+
+        localfs, memfs = LocalFileSystem(), MemoryFileSystem(global_store=False)
+        with tempfile.TemporaryDirectory(dir="/var/tmp") as tmp:
+            dest = HashFileDB(localfs, os.path.join(tmp, "dest")); os.makedirs(dest.path)
+            staging = ReferenceHashFileDB(memfs, "memory://staging")
+            oids = {}
+            for j in range(4):
+                on_disk = (j + case) % 2 == 0
+                fs_, path = (localfs, os.path.join(tmp, "work", f"f{j}")) if on_disk else (memfs, f"memory://gen{case}/f{j}")
+                data = f"{case}-{j}".encode()
+                fs_.makedirs(fs_.parent(path), exist_ok=True); fs_.pipe_file(path, data)
+                oids[f"f{j}"] = hashlib.md5(data).hexdigest()
+                staging.add(path, fs_, oids[f"f{j}"])
+            raw = json.dumps([{"md5": oids[k], "relpath": k} for k in sorted(oids)], sort_keys=True).encode()
+            doid = hashlib.md5(raw).hexdigest() + ".dir"
+            memfs.pipe_file(f"memory://gen{case}/tree.dir", raw); staging.add(f"memory://gen{case}/tree.dir", memfs, doid)
+            res = transfer(staging, dest, {HashInfo("md5", doid)}, shallow=False)
+            present = set(dest.all())
+            missing = [o for o in list(oids.values()) + [doid] if o not in present]
+            if doid in present and any(o not in present for o in oids.values()):
+                return "destination holds the directory object without a file it lists (source objects on two filesystems)"
+            if missing and not all(any(h.value == o for h in res.failed) for o in missing):
+                return "an object that did not arrive is not reported as failed (source objects on two filesystems)"
+        return None
+
     rnd = random.Random(seed)
     fails, distinct = [], set()
     for case in range(n):
+        if case % 10 == 9:
+            try:
+                pr = multi_fs_source(case)
+            except Exception as e:  # noqa: BLE001
+                pr = "raised " + repr(e)
+            distinct.add(("multi-fs", case))
+            if pr:
+                fails.append({"fault": "none", "victims": [], "dest_index": False, "problem": pr})
+            continue
         with tempfile.TemporaryDirectory(dir="/var/tmp") as tmp:
             fs = LocalFileSystem()
             cache = HashFileDB(fs, os.path.join(tmp, "cache"))
@@ -98,7 +138,7 @@ def main(n, seed):
             if problem:
                 fails.append({"fault": kind, "victims": sorted(victims), "dest_index": use_index, "problem": problem})
     return {"evaluations": n, "distinct_nontrivial": len(distinct), "failures": fails[:3], "n_failures": len(fails),
-            "bound": "2-3 directories sharing a file, 1-2 failing uploads, fault kinds {EIO, source vanished, source corrupt under verify}, with/without index"}
+            "bound": "2-3 directories sharing a file, 1-2 failing uploads, fault kinds {EIO, source vanished, source corrupt under verify}, with/without index; every tenth: a fault-free transfer whose source objects live on two filesystems"}
 
 
 if __name__ == "__main__":
